@@ -441,9 +441,11 @@ func renameInboxPerUser(db *sql.DB, userID int64, newName string) error {
 	}
 	defer func() { _ = tx.Rollback() }()
 
+	// MAX: the new mailbox exists since CreateMailboxPerUser above, so another
+	// session may already have added a message to it; its counter must not go back
 	_, err = tx.Exec(`
 		UPDATE mailboxes
-		SET uid_next = (SELECT uid_next FROM mailboxes WHERE id = ?)
+		SET uid_next = MAX(uid_next, (SELECT uid_next FROM mailboxes WHERE id = ?))
 		WHERE id = ?
 	`, inboxID, newMailboxID)
 	if err != nil {
